@@ -1026,6 +1026,12 @@ def as_for(n):
     n0 = n
     if n0.get("k") == "DropTemps":
         n0 = n0["e"]
+    if n0.get("k") == "MethodCall" and n0.get("m") in ("for_each", "try_for_each") and len(n0.get("args") or []) == 1:
+        # `xs.iter().for_each(|x| body)` / `.try_for_each(|x| body)?` is the same iteration as `for x in xs.iter() { body }`
+        clo = strip(n0["args"][0])
+        if clo.get("k") == "Closure" and len(clo.get("params") or []) == 1 and "Iterator" in (callee_generic(n0) or callee(n0) or ""):
+            prm = clo["params"][0]
+            return (prm.get("pat") or prm), n0["recv"], clo["body"], None
     if n0.get("k") == "Match" and n0.get("src") == "ForLoopDesugar" and len(n0["arms"]) == 1:
         it = n0["e"]
         if it.get("k") == "Call" and it["args"]:
